@@ -78,6 +78,7 @@ type ClientScenario struct {
 	Raw        bool  // DHCPv4 only: the client runs on nclient4.NewBroadcastUDPConn(<scripted conn>), the production stack (datagrams are IPv4/UDP frames)
 	Twin       bool  // a second client on its own connection has a call in flight with the SAME transaction id as call 0 and gets its own reply (serial 99): clients share nothing
 	Decoy      bool  // a second client with a different configuration is constructed (and closed) after the one under test
+	HWOpt      bool  // DHCPv4: the client is constructed for another hardware address and told its own through WithHWAddr
 	LogKind    int   // with Log: 0 the debug logger, 1 the summary logger, 2 a caller-supplied logger that prints every message (DHCPv4; DHCPv6 has none: summary)
 	Log        bool  // the client is configured with its debug logger (output discarded) and, for DHCPv6, with WithLogDroppedPackets
 	Bound      int
@@ -96,6 +97,9 @@ func (s *ClientScenario) String() string {
 	}
 	if s.Log {
 		b.WriteString("(" + [...]string{"debug", "summary", "caller-supplied"}[s.LogKind] + " logger, dropped packets logged) ")
+	}
+	if s.HWOpt {
+		b.WriteString("(hardware address given by WithHWAddr) ")
 	}
 	if s.Raw {
 		b.WriteString("(over the raw broadcast connection) ")
@@ -350,7 +354,12 @@ func (s *ClientScenario) body(out **clientRun) func() {
 			if s.Raw {
 				pc = nclient4.NewBroadcastUDPConn(conn, &net.UDPAddr{Port: 68})
 			}
-			cl, err := nclient4.NewWithConn(pc, clientMAC, opts4...)
+			ctorMAC := clientMAC
+			if s.HWOpt {
+				ctorMAC = otherMAC
+				opts4 = append(opts4, nclient4.WithHWAddr(append(net.HardwareAddr{}, clientMAC...)))
+			}
+			cl, err := nclient4.NewWithConn(pc, ctorMAC, opts4...)
 			if err != nil {
 				panic(err)
 			}
